@@ -571,3 +571,28 @@ TIE_BINCOPY2 = [_T + n for n in (
 _addtie("C14", ["TieCopy2"], TIE_BINCOPY2)
 _addtie("C13", ["TieCopy2"], [_T + "tie_fill_stream", _T + "tie_take_stream", _T + "tie_binRead_sim"])
 _addtie("C04", ["TieCopy2"], [_T + "tie_binRead_sim", _T + "tie_fill_sim", _T + "tie_take_sim"])
+
+# ---- session 5 (continued): the result writer (writer.go, row.go) and the statement / portal caches (cache.go) translated on
+# every run (-writer -> TransWriter.lean over RtWriter.lean; -cache -> TransCache.lean over RtCache.lean)
+TIE_DATAWRITER = [_T + n for n in (
+    "dw_untranslatable_nil", "dw_struct_layout", "dw_ErrClosedWriter", "dw_ErrDataWritten", "dw_send_model", "dw_tie_Written",
+    "dw_tie_Empty", "dw_tie_Empty_model", "dw_Empty_fresh", "dw_tie_commandComplete", "dw_tie_Complete_closed",
+    "dw_tie_Complete", "dw_tie_Complete_closes", "dw_tie_Complete_model", "dw_tie_Row_closed", "dw_tie_Row_arity",
+    "dw_keeps_Columns_Write", "dw_tie_Row_open", "dw_tie_Row_counter", "dw_tie_after_Complete", "dw_tie_Empty_after_rows")]
+TIE_CACHE = [_T + n for n in (
+    "cache_untranslatable_nil", "cache_struct_layout", "ca_mapGet_lookup", "ca_mapSet_store", "ca_mapSet_nil",
+    "ca_mapDelete_remove", "tie_ca_StatementCache_Set", "tie_ca_StatementCache_Set_nil", "tie_ca_StatementCache_Get",
+    "tie_ca_StatementCache_Get_shared", "tie_ca_StatementCache_Close", "tie_ca_StatementCache_held",
+    "tie_ca_Set_refines_store", "tie_ca_Close_refines_remove", "tie_ca_Get_refines_lookup", "tie_ca_Get_fresh_cache",
+    "tie_ca_Set_Get_same", "tie_ca_Set_Get_other", "tie_ca_Set_fresh", "tie_ca_Close_Get", "tie_ca_PortalCache_Bind",
+    "tie_ca_PortalCache_Get", "tie_ca_PortalCache_Close", "tie_ca_Bind_refines_store", "tie_ca_PortalClose_refines_remove",
+    "tie_ca_PortalGet_fresh_cache", "tie_ca_PortalClose_Get", "tie_ca_Bind_snapshot", "tie_ca_Set_keeps_portals",
+    "tie_ca_StmtClose_keeps_portals", "tie_ca_Execute_unknown", "tie_ca_Execute_known", "tie_ca_Execute_nil_statement",
+    "tie_ca_Execute_total", "tie_cache_locks_released", "tie_cache_no_panic", "tie_ca_Set_refines_model",
+    "tie_ca_Close_refines_model", "tie_ca_Get_refines_model")]
+_addtie("C05", ["TieDataWriter"], TIE_DATAWRITER)
+_addtie("C02", ["TieDataWriter"], [_T + "dw_tie_commandComplete", _T + "dw_tie_Complete_model", _T + "dw_send_model"])
+_addtie("C07", ["TieCache"], TIE_CACHE)
+_addtie("C06", ["TieCache"], [_T + n for n in ("tie_ca_Execute_unknown", "tie_ca_Execute_known", "tie_ca_Execute_total",
+                                                 "tie_ca_Get_fresh_cache", "tie_ca_PortalGet_fresh_cache")])
+_addtie("C04", ["TieDataWriter", "TieCache"], [_T + "tie_cache_locks_released", _T + "tie_cache_no_panic", _T + "dw_tie_Row_counter"])
